@@ -1091,6 +1091,127 @@ def gaussian_cov_cdf_cases(ctx, cuqi, state, cases, stats):
                             form, gk, "1" if n == 1 else "n", "/thr=1" if thr else "", "/mag2^%d" % j if j else "", "/scalar-mean" if len(meta["mean"]) == 1 and n > 1 else ""))
 
 
+def signed_perm(rng, n, want_det):
+    """signed permutation matrix (orthogonal, entries 0 / +-1) with the requested determinant, never the identity"""
+    while True:
+        perm = list(range(n))
+        rng.shuffle(perm)
+        signs = [rng.choice([-1, 1]) for _ in range(n)]
+        Q = [[Fraction(signs[i]) if perm[i] == j else Fraction(0) for j in range(n)] for i in range(n)]
+        det = fr_solve_det(Q, [Fraction(0)] * n)[1]
+        if det != want_det:
+            Q[0] = [-v for v in Q[0]]
+        if Q != [[Fraction(int(i == j)) for j in range(n)] for i in range(n)]:
+            return Q
+
+
+def gaussian_signed_factor_cases(ctx, cuqi, state, cases, stats):
+    """square-root inputs whose DETERMINANT IS NEGATIVE (and |det| != 1): the density depends on the factor R only through R^T R
+    (sqrtprec) resp. R R^T (sqrtcov, the code's reading), so Q R with Q^T Q = I, row-sign flips of a triangular factor, and
+    indefinite symmetric roots all denote the Gaussian of the cov / prec form of the same Sigma.  Both sides of the switch."""
+    rng = ctx.rng
+    pt = lambda n: [rng.randint(-16, 16) / 8 for _ in range(n)]
+    fl2 = lambda M: [[float(v) for v in r] for r in M]
+    counter = 0
+    for n in (2, 3) + ((5,) if ctx.thorough else ()):
+        for thr in (None, 1):
+            tag = "/thr=1" if thr else ""
+            U = rand_unit_lower(rng, n)
+            U[n - 1][0] = rng.choice([-1, 1])
+            D = [rng.choice([0.5, 1.0, 2.0]) for _ in range(n)]
+            if math.prod(D) == 1.0:
+                D[0] = 2.0 * D[0] if D[0] < 2 else 0.5
+            L = [[Fraction(U[i][k]) * frac(D[k]) for k in range(n)] for i in range(n)]
+            Ui = inv_unit_lower(U)
+            Li = [[Ui[i][k] / frac(D[i]) for k in range(n)] for i in range(n)]
+            Sg = fr_mm(L, fr_T(L))
+            Qm, Qp = signed_perm(rng, n, -1), signed_perm(rng, n, 1)
+            odd = [[Fraction(-1 if i == j and i == 0 else int(i == j)) for j in range(n)] for i in range(n)]
+            even = [[Fraction(-1 if i == j and i < 2 else int(i == j)) for j in range(n)] for i in range(n)]
+            members = [("cov", "Sigma", Sg), ("prec", "Sigma^-1", fr_mm(fr_T(Li), Li)),
+                       ("sqrtprec", "triangular-odd-negative-pivots", fr_mm(odd, Li)), ("sqrtprec", "triangular-even-negative-pivots", fr_mm(even, Li)),
+                       ("sqrtprec", "Q*R-det-1", fr_mm(Qm, Li)), ("sqrtprec", "Q*R-det+1", fr_mm(Qp, Li)),
+                       # sqrtcov: the code's reading is R R^T, invariant under R -> R Q (these are non-normal: the documented reading
+                       # R^T R differs -- known finding; they still exercise the branch with a negative determinant)
+                       ("sqrtcov", "R*Q-det-1", fr_mm(L, Qm)), ("sqrtcov", "R-odd-negative-pivots", fr_mm(L, odd))]
+            mean, x = pt(n), pt(n)
+            vals = {}
+            for form, what, Mx in members:
+                counter += 1
+                meta = {"kind": "gaussian", "form": form, "gkind": "densefull", "dim": n, "mean": list(mean), "via": "direct",
+                        "method": "logpdf", "P": fl2(Mx), "x": list(x), "storage": ["array", "nested-list", "matrix"][counter % 3]}
+                if thr:
+                    meta["thr"] = thr
+                g_case(ctx, cuqi, state, cases, stats, meta, "Gaussian/%s/densefull-signed/%s%s" % (form, what, tag))
+                vals[(form, what)] = cases[-1].meta["observed"].get("value")
+            ref = vals[("cov", "Sigma")]
+            bad = {k: v for k, v in vals.items() if v is None or not close(v, ref, 1e-8)}
+            if bad and not cases[-1].impl_fail:
+                cases[-1].impl_fail = "one Gaussian, factors differing by an orthogonal matrix / row signs: logpdf %r" % ({"%s:%s" % k: v for k, v in vals.items()},)
+                cases[-1].signature = "Gaussian.logpdf|forms-disagree:signed-factor"
+            # general (non-triangular, non-symmetric) integer factor with negative determinant, |det| >= 2: sqrtprec = G vs prec = G^T G
+            while True:
+                G = [[Fraction(rng.randint(-2, 2)) + (3 if i == j else 0) for j in range(n)] for i in range(n)]
+                G[0] = [-v for v in G[0]]
+                det = fr_solve_det(G, [Fraction(0)] * n)[1]
+                if det <= -2 and G != fr_T(G):
+                    break
+            mean, x = pt(n), pt(n)
+            vals = {}
+            for form, Mx in (("prec", fr_mm(fr_T(G), G)), ("sqrtprec", G)):
+                meta = {"kind": "gaussian", "form": form, "gkind": "densefull", "dim": n, "mean": list(mean), "via": "direct",
+                        "method": ["logpdf", "logd"][counter % 2], "P": fl2(Mx), "x": list(x)}
+                if thr:
+                    meta["thr"] = thr
+                g_case(ctx, cuqi, state, cases, stats, meta, "Gaussian/%s/densefull-signed/general-negative-det%s" % (form, tag))
+                vals[form] = cases[-1].meta["observed"].get("value")
+            if not (vals["prec"] is not None and close(vals["sqrtprec"], vals["prec"], 1e-8)) and not cases[-1].impl_fail:
+                cases[-1].impl_fail = "sqrtprec = G (det %s) and prec = G^T G give logpdf %r" % (det, vals)
+                cases[-1].signature = "Gaussian.logpdf|forms-disagree:signed-factor"
+            # indefinite symmetric square root (normal: both readings of sqrtcov agree), det < 0: sqrtcov = S, sqrtprec = S, cov / prec = S^2
+            while True:
+                S = [[Fraction(0)] * n for _ in range(n)]
+                for i in range(n):
+                    S[i][i] = Fraction((n + 1) * (-1 if i == 0 else rng.choice([-1, 1])))
+                    for k in range(i):
+                        S[i][k] = S[k][i] = Fraction(rng.randint(-1, 1))
+                if fr_solve_det(S, [Fraction(0)] * n)[1] < 0 and any(S[i][k] != 0 for i in range(n) for k in range(i)):
+                    break
+            S2 = fr_mm(S, S)
+            mean, x = pt(n), pt(n)
+            for grp in ((("cov", S2), ("sqrtcov", S)), (("prec", S2), ("sqrtprec", S))):
+                vals = {}
+                for form, Mx in grp:
+                    meta = {"kind": "gaussian", "form": form, "gkind": "densefull", "dim": n, "mean": list(mean), "via": "direct",
+                            "method": "logpdf", "P": fl2(Mx), "x": list(x)}
+                    if thr:
+                        meta["thr"] = thr
+                    g_case(ctx, cuqi, state, cases, stats, meta, "Gaussian/%s/densefull-signed/indefinite-symmetric-root%s" % (form, tag))
+                    vals[form] = cases[-1].meta["observed"].get("value")
+                a, b = list(vals.values())
+                if not (a is not None and close(b, a, 1e-8)) and not cases[-1].impl_fail:
+                    cases[-1].impl_fail = "symmetric indefinite root S and S^2 give logpdf %r" % (vals,)
+                    cases[-1].signature = "Gaussian.logpdf|forms-disagree:signed-factor"
+            # diagonal storage forms with negative entries
+            sd = [rng.choice([0.5, 2.0, 4.0]) * (-1 if i % 2 == 0 else rng.choice([-1, 1])) for i in range(n)]
+            for gk in ("scalar", "vector", "densediag", "spdiag"):
+                mean, x = pt(n), pt(n)
+                vals = {}
+                for form in ("cov", "sqrtcov", "sqrtprec"):
+                    s0 = sd[:1] if gk == "scalar" else sd
+                    pv = [{"cov": v * v, "sqrtcov": v, "sqrtprec": 1 / v}[form] for v in s0]
+                    meta = {"kind": "gaussian", "form": form, "gkind": gk, "dim": n, "mean": list(mean), "via": "direct", "method": "logpdf", "x": list(x),
+                            "storage": {"scalar": "float", "vector": "array", "spdiag": ["dia", "csr"][n % 2], "densediag": "array"}[gk]}
+                    meta["P"] = [[pv[i] if i == k else 0.0 for k in range(n)] for i in range(n)] if gk == "densediag" else pv
+                    if thr:
+                        meta["thr"] = thr
+                    g_case(ctx, cuqi, state, cases, stats, meta, "Gaussian/%s/%s-negative-entries%s" % (form, gk, tag))
+                    vals[form] = cases[-1].meta["observed"].get("value")
+                if not all(v is not None and close(v, vals["cov"], 1e-8) for v in vals.values()) and not cases[-1].impl_fail:
+                    cases[-1].impl_fail = "%s Gaussian with negative standard-deviation entries: logpdf %r" % (gk, vals)
+                    cases[-1].signature = "Gaussian.logpdf|forms-disagree:signed-factor"
+
+
 def gaussian_switch_cases(ctx, cuqi, state, cases, stats):
     """(a) every storage kind on the SPARSE side of the switch at small dims (threshold lowered through cuqi.config.MIN_DIM_SPARSE),
     (b) rank-deficient full matrices on both sides, (c) sqrtprec as a scipy LinearOperator"""
@@ -1465,8 +1586,11 @@ def gaussian_cases(ctx, cuqi, state, cases, stats):
                     # banded SPD (cov, prec: tridiagonal; sqrtcov: symmetric tridiagonal; sqrtprec: upper bidiagonal)
                     dg = [float(rng.choice([2, 3, 4])) for _ in range(n)]
                     of = [float(rng.choice([-1, 0, 1])) / 2 for _ in range(n - 1)]
-                    if form == "sqrtprec":
-                        meta["P"] = [[dg[i] / 2 if i == j else (of[i] if j == i + 1 else 0.0) for j in range(n)] for i in range(n)]
+                    if form == "sqrtprec":     # upper bidiagonal with an odd number of negative pivots: det < 0
+                        sg = [-1.0 if (i % 7 == 0) else 1.0 for i in range(n)]
+                        if sum(1 for v in sg if v < 0) % 2 == 0:
+                            sg[1] = -1.0
+                        meta["P"] = [[sg[i] * dg[i] / 2 if i == j else (of[i] if j == i + 1 else 0.0) for j in range(n)] for i in range(n)]
                     else:
                         meta["P"] = [[dg[i] if i == j else (of[min(i, j)] if abs(i - j) == 1 else 0.0) for j in range(n)] for i in range(n)]
                 jbig = [0, -17, 17, -25][(n + len(form) + len(gk)) % 4]       # magnitude sweep across the storage switch as well
@@ -1775,6 +1899,7 @@ def run(ctx):
     gaussian_magnitude_cases(ctx, cuqi, state, cases, stats)
     gaussian_cov_cdf_cases(ctx, cuqi, state, cases, stats)
     gaussian_switch_cases(ctx, cuqi, state, cases, stats)
+    gaussian_signed_factor_cases(ctx, cuqi, state, cases, stats)
     mrf_cases(ctx, cuqi, state, cases, stats)
     mrf_magnitude_cases(ctx, cuqi, state, cases, stats)
     scalar_magnitude_cases(ctx, cuqi, state, cases, stats)
